@@ -319,6 +319,96 @@ func runG11(r *Repo, rep *Report) {
 				}
 			}
 		}
+		// the same universal statement through the library: return !slices.ContainsFunc(xs, notDone) /
+		// slices.IndexFunc(xs, notDone) < 0 (== -1): true exactly when no element satisfies the predicate
+		if !okShape && len(fi.Decl.Body.List) == 1 {
+			if ret, isRet := fi.Decl.Body.List[0].(*ast.ReturnStmt); isRet && len(ret.Results) == 1 {
+				isLib := func(e ast.Expr, name string) bool {
+					c, ok := ast.Unparen(e).(*ast.CallExpr)
+					if !ok || len(c.Args) != 2 {
+						return false
+					}
+					fn, ok := callee(info, c).(*types.Func)
+					return ok && fn.Pkg() != nil && fn.Pkg().Path() == "slices" && fn.Name() == name
+				}
+				switch x := ast.Unparen(ret.Results[0]).(type) {
+				case *ast.UnaryExpr:
+					if x.Op == token.NOT && isLib(x.X, "ContainsFunc") {
+						okShape = true
+					}
+				case *ast.BinaryExpr:
+					if isLib(x.X, "IndexFunc") {
+						if tv, has := info.Types[x.Y]; has && tv.Value != nil {
+							if (x.Op == token.LSS && tv.Value.String() == "0") || (x.Op == token.EQL && tv.Value.String() == "-1") {
+								okShape = true
+							}
+						}
+					}
+				}
+			}
+		}
+		// a flag that starts true and is only ever cleared: done := true; for … { if !d(x) { done = false[; break] } }; return done
+		if !okShape && len(fi.Decl.Body.List) == 3 {
+			as, isAs := fi.Decl.Body.List[0].(*ast.AssignStmt)
+			rs, isR := fi.Decl.Body.List[1].(*ast.RangeStmt)
+			ret, isRet := fi.Decl.Body.List[2].(*ast.ReturnStmt)
+			if isAs && isR && isRet && len(as.Lhs) == 1 && len(as.Rhs) == 1 && len(ret.Results) == 1 {
+				fid, isID := as.Lhs[0].(*ast.Ident)
+				rid, isRID := ast.Unparen(ret.Results[0]).(*ast.Ident)
+				tv := info.Types[as.Rhs[0]]
+				if isID && isRID && objOf(info, fid) == info.Uses[rid] && tv.Value != nil && tv.Value.String() == "true" {
+					onlyCleared, cleared := true, false
+					ast.Inspect(rs.Body, func(m ast.Node) bool {
+						if a2, ok := m.(*ast.AssignStmt); ok {
+							for k, l := range a2.Lhs {
+								if id, ok := l.(*ast.Ident); ok && objOf(info, id) == objOf(info, fid) && k < len(a2.Rhs) {
+									if v := info.Types[a2.Rhs[k]].Value; v != nil && v.String() == "false" {
+										cleared = true
+									} else {
+										onlyCleared = false
+									}
+								}
+							}
+						}
+						return true
+					})
+					if len(rs.Body.List) == 1 && onlyCleared && cleared {
+						if ifs, isIf := rs.Body.List[0].(*ast.IfStmt); isIf && ifs.Else == nil {
+							if _, neg := stripNot(ifs.Cond); neg {
+								okShape = true
+							}
+						}
+					}
+				}
+			}
+		}
+		// done := true; for … { if done = d(x); !done { break } }; return done
+		if !okShape && len(fi.Decl.Body.List) == 3 {
+			as, isAs := fi.Decl.Body.List[0].(*ast.AssignStmt)
+			rs, isR := fi.Decl.Body.List[1].(*ast.RangeStmt)
+			ret, isRet := fi.Decl.Body.List[2].(*ast.ReturnStmt)
+			if isAs && isR && isRet && len(as.Lhs) == 1 && len(as.Rhs) == 1 && len(ret.Results) == 1 && flagReduction(info, rs) {
+				fid, isID := as.Lhs[0].(*ast.Ident)
+				rid, isRID := ast.Unparen(ret.Results[0]).(*ast.Ident)
+				tv := info.Types[as.Rhs[0]]
+				// the flag of the reduction is the one that starts true and is returned, and the loop is left when it is false
+				var lf *ast.Ident
+				var cond ast.Expr
+				switch len(rs.Body.List) {
+				case 1:
+					ifs := rs.Body.List[0].(*ast.IfStmt)
+					lf, _ = ifs.Init.(*ast.AssignStmt).Lhs[0].(*ast.Ident)
+					cond = ifs.Cond
+				case 2:
+					lf, _ = rs.Body.List[0].(*ast.AssignStmt).Lhs[0].(*ast.Ident)
+					cond = rs.Body.List[1].(*ast.IfStmt).Cond
+				}
+				_, neg := stripNot(cond)
+				if isID && isRID && lf != nil && neg && objOf(info, fid) == info.Uses[rid] && info.Uses[lf] == info.Uses[rid] && tv.Value != nil && tv.Value.String() == "true" {
+					okShape = true
+				}
+			}
+		}
 		if okShape {
 			rep.pass("G11")
 		} else {
